@@ -531,6 +531,50 @@ fn main() {
             None,
         );
     }
+    // crafted rare-interaction families (e.p. x line geometry, frozen e.p., castling x attackers,
+    // promotions): install the pre-position, play the crafted moves, offer EVERY pseudo-legal but
+    // illegal move (must be refused) and then the special legal moves (must be applied)
+    if !a.small {
+        let mut crafted = Vec::new();
+        workload::ep_family(a.shard, a.nshards, if thorough { 4 } else { 24 }, &mut crafted);
+        let mut frng = Rng::new(0xF20E + a.shard);
+        workload::ep_frozen_family(&mut frng, a.shard, a.nshards, if thorough { 16 } else { 64 }, &mut crafted);
+        let mut other = Vec::new();
+        workload::castle_family(&mut other);
+        workload::promo_family(&mut other);
+        workload::clock_terminal_family(&mut other);
+        let stride = if thorough { 2 } else { 12 };
+        for (i, cr) in other.into_iter().enumerate() {
+            if i as u64 % (a.nshards * stride) == a.shard {
+                crafted.push(cr);
+            }
+        }
+        for cr in &crafted {
+            let mut calls = vec![Call::SetBoard(cr.pre.to_fen())];
+            let mut p = cr.pre.clone();
+            for m in &cr.moves {
+                calls.push(Call::Move(*m));
+                p = p.apply(*m);
+            }
+            if p.half > 9000 || p.full > 9000 {
+                continue;
+            }
+            let legal = p.legal_moves();
+            for m in p.pseudo_moves() {
+                if !legal.contains(&m) {
+                    calls.push(Call::Move(m));
+                }
+            }
+            let special: Vec<Mv> = legal.iter().copied().filter(|m| p.is_ep_capture(*m) || p.is_castle(*m) || m.promo.is_some()).take(6).collect();
+            for (j, m) in special.iter().enumerate() {
+                if j > 0 {
+                    calls.push(Call::SetBoard(p.to_fen()));
+                }
+                calls.push(Call::Move(*m));
+            }
+            run_case(&mut c, &api, &calls, cr.family, None);
+        }
+    }
     let n_hist = ((if thorough { 4000.0 } else if a.small { 6.0 } else { 500.0 }) * a.scale).max(2.0) as u64;
     for h in 0..n_hist {
         let mut rng = Rng::new(mix3(a.seed, a.shard, h));
